@@ -756,6 +756,10 @@ func (e *Env) evalCall(n *ECall) Val {
 		if uf.Ret == "Bool" {
 			return boolVal(app(uf.Name, ts...))
 		}
+		if uf.Ret == "Str" {
+			vc.ensureStr()
+			return Val{T: types.Typ[types.String], K: KStr, S: app(uf.Name, ts...)}
+		}
 		return mathInt(app(uf.Name, ts...))
 	}
 	sfail("unknown function %s", n.Fn)
